@@ -15,12 +15,12 @@ from symtorch import TraceError
 
 METHODS = {
     "deepali/spatial/base.py": {
-        "SpatialTransform": ["__init__", "__copy__", "condition", "condition_", "grid_", "update", "_update_hook",
+        "SpatialTransform": ["__init__", "__copy__", "condition", "condition_", "grid", "grid_", "update", "_update_hook",
                              "register_update_hook", "clear_buffers", "inv", "inverse"],
         "NonRigidTransform": ["tensor", "update", "clear_buffers"],
     },
     "deepali/spatial/parametric.py": {
-        "ParametricTransform": ["__init__", "reset_parameters", "data", "data_", "_data", "link_", "unlink_", "update"],
+        "ParametricTransform": ["__init__", "has_parameters", "reset_parameters", "data", "data_", "_data", "link_", "unlink", "unlink_", "update"],
         "InvertibleParametricTransform": ["__init__", "inverse"],
     },
     "deepali/spatial/nonrigid.py": {
@@ -34,7 +34,7 @@ METHODS = {
         "StationaryVelocityFreeFormDeformation": ["inverse", "update"],
     },
     "deepali/spatial/composite.py": {
-        "CompositeTransform": ["condition", "condition_", "update", "clear_buffers"],
+        "CompositeTransform": ["_copy_with_transforms", "condition", "condition_", "grid", "update", "clear_buffers"],
         "SequentialTransform": ["forward", "tensor", "inverse"],
     },
     "deepali/modules/flow.py": {
